@@ -78,7 +78,9 @@ def probes_for(keys):
         for v in (k.swapcase(), k.capitalize(), k.lower(), k.upper()):
             if v != k:
                 variants.append(v)
-    strs = sm.distinct(list(keys) + ["ZZ", ""] + variants + ["1", "0"])
+    # keys with blanks around a name are other keys (no lookup strips them)
+    padded = [k + " " for k in keys[:2] if k.strip()] + [" " + k for k in keys[-1:] if k.strip()]
+    strs = sm.distinct(list(keys) + ["ZZ", ""] + variants + ["1", "0"] + padded)
     for k in strs:
         out.append(["str", k])
     for i in sm.distinct([0, 1, -1, n, -n - 1]):
@@ -89,9 +91,14 @@ def probes_for(keys):
 
 
 def cases(tier):
+    n = 0
     for fl, ci, ops, keys in reachable_states(tier):
         for p in probes_for(keys):
             yield {"fl": fl, "ci": ci, "ops": ops, "probe": p}
+            if ci and p[0] == "str" and keys:
+                # the same section after a copy: it is still "a section that was read with case normalisation"
+                n += 1
+                yield {"fl": fl, "ci": ci, "ops": ops, "probe": p, "copy": ("deepcopy", "pickle", "copy")[n % 3]}
 
 
 # ------------------------------------------------------------------------------------------
@@ -102,6 +109,18 @@ class State(object):
 
     def __init__(self, case):
         self.d = sm.build(case["fl"], bool(case["ci"]), case["ops"])
+        if case.get("copy"):
+            import copy
+            import pickle
+
+            how = case["copy"]
+            sec = self.d.section
+            dup = copy.deepcopy(sec) if how == "deepcopy" else pickle.loads(pickle.dumps(sec)) if how == "pickle" else copy.copy(sec)
+            if self.d.las is not None:
+                self.d.las.sections["Curves"] = dup
+                self.d.section = self.d.las.curves
+            else:
+                self.d.section = dup
         self.s = self.d.section
         self.items = self.d.items()
         self.keys = [it.mnemonic for it in self.items]
@@ -154,6 +173,8 @@ def oracle(case):
         out.fail("keys-not-item-mnemonics", "keys() %r, item mnemonics %r" % (kobs, st.keys))
         return out
     out.cls(case["fl"], "ci" if ci else "cs", "n=%d" % n, "probe-" + probe[0])
+    if case.get("copy"):
+        out.cls("after-" + case["copy"])
     if probe[0] == "str":
         judge_str(out, case, st, probe[1], ci)
     elif probe[0] == "int":
